@@ -56,7 +56,7 @@ Definition index (s : bytes) (i : Z) : res N :=
   else match nth_error s (Z.to_nat i) with Some b => Ok b | None => Panic end.
 
 (** [strings.HasPrefix]. *)
-Fixpoint has_prefix (s p : bytes) : bool :=
+Fixpoint has_prefix (s p : bytes) {struct p} : bool :=
   match p, s with
   | [], _ => true
   | b :: p', a :: s' => N.eqb a b && has_prefix s' p'
@@ -90,7 +90,7 @@ Definition last_index_nl (s : bytes) : Z := last_index_nl_from 0 s (-1).
     no letter with a non-ASCII simple fold: no [k], no [s]). *)
 Definition upper (b : N) : N := if (97 <=? b)%N && (b <=? 122)%N then (b - 32)%N else b.
 (** [p] is upper-case ASCII; does [s] start with [p] up to ASCII case? *)
-Fixpoint has_prefix_ci (s p : bytes) : bool :=
+Fixpoint has_prefix_ci (s p : bytes) {struct p} : bool :=
   match p, s with
   | [], _ => true
   | b :: p', a :: s' => N.eqb (upper a) b && has_prefix_ci s' p'
@@ -534,18 +534,22 @@ Fixpoint to_eol_loop (fuel : nat) (s : scanner) (r : option N) : res scanner :=
     end
   end.
 
-(** lex.go: Scanner.delimCmd (with fix cda21f7: [len(delim) > 1]). *)
+(** the delimiter named by the text after the DELIMITER keyword (delimCmd, with fix cda21f7:
+    [len(delim) > 1]): TrimSpace, then the MySQL client's quoting. *)
+Definition delim_of_arg (raw : bytes) : res bytes :=
+  let d := trim_space raw in
+  if (1 <? zlen d) && has_prefix d [39%N] && has_suffix d [39%N] then
+    do inner <- slice d 1 (zlen d - 1); Ok (replace_qq inner)
+  else Ok d.
+
+(** lex.go: Scanner.delimCmd *)
 Definition delimCmd (o : opts) (fuel : nat) (s : scanner) : res scanner :=
   do r <- pick s;
   if negb (rune_is r 32) then Ok s else
   do r0 <- pick s;
   do s1 <- to_eol_loop fuel s r0;
   do raw <- slice (input s1) (zlen S_DELIMITER) (pos s1);
-  let d := trim_space raw in
-  do d' <-
-     (if (1 <? zlen d) && has_prefix d [39%N] && has_suffix d [39%N] then
-        do inner <- slice d 1 (zlen d - 1); Ok (replace_qq inner)
-      else Ok d);
+  do d' <- delim_of_arg raw;
   do s2 <- setDelim s1 d';
   do txt <- slice_to (input s2) (pos s2);
   do es <- emit o s2 txt;
